@@ -33,31 +33,25 @@ theorem scan_escapeDoc_dangling_counterexample :
   decide
 
 /-- The contents `_format_docstring` writes always end with a newline and the indentation, so
-they never end inside an escape: whatever the documentation text (quotes and backslashes
-included) and whatever the indentation, the lexer reads back exactly the written contents. -/
-theorem scan_fmtDoc (k : Nat) (d c rest : Str) (h : fmtDoc k d = .ok c) :
-    scanB q3 (c ++ (q3 ++ rest)) = some (c, rest) := by
-  unfold fmtDoc at h
-  split at h
-  · cases h
-  · rename_i ls _
-    simp only [Except.ok.injEq] at h
-    subst h
-    apply scan_escapeDoc
-    have := dangling_tail k _ ('\n' :: (spaces k ++ joinLines ('\n' :: spaces k) ls)) (Nat.le_refl _)
-    simpa using this
+they never end inside an escape: for EVERY documentation text (quotes, quote runs, backslashes,
+blank lines) and every indentation the lexer reads back exactly the written contents. -/
+theorem scan_fmtDoc (k : Nat) (d rest : Str) :
+    scanB q3 (fmtDoc k d ++ (q3 ++ rest)) = some (fmtDoc k d, rest) := by
+  unfold fmtDoc
+  apply scan_escapeDoc
+  have := dangling_tail k _ ('\n' :: (spaces k ++ joinLines ('\n' :: spaces k) (docLines d))) (Nat.le_refl _)
+  simpa using this
 
-/-- ... and formatting those contents' escaping again is the identity (second format = first). -/
-theorem fmtDoc_escape_stable (k : Nat) (d c : Str) (h : fmtDoc k d = .ok c) : escapeDoc c = c := by
-  unfold fmtDoc at h
-  split at h
-  · cases h
-  · simp only [Except.ok.injEq] at h
-    subst h
-    exact escapeDoc_idem _
+/-- ... and escaping those contents again is the identity (second format = first). -/
+theorem fmtDoc_escape_stable (k : Nat) (d : Str) : escapeDoc (fmtDoc k d) = fmtDoc k d := by
+  unfold fmtDoc
+  exact escapeDoc_idem _
 
-/-- F42 (model level): a docstring that is one blank line cannot be formatted (`lines[-1]`). -/
-theorem fmtDoc_blank_line_counterexample : fmtDoc 2 ['\n'] = .error .indexError := by rfl
+/-- regression (F42, repaired): a docstring that is one blank line is formatted. -/
+example : fmtDoc 2 ['\n'] = ['\n', ' ', ' ', '\n', ' ', ' '] := by decide
+
+/-- regression (F46, repaired): blank lines at the end of a docstring survive a second formatting. -/
+example : fmtDoc 2 (fmtDoc 2 ['x', '\n', '\n', '\n']) = fmtDoc 2 ['x', '\n', '\n', '\n'] := by decide
 
 /-! ## Feature-structure access -/
 
@@ -137,7 +131,7 @@ theorem setPath_through_type_term :
 
 /-- "the expanded feature list of a body is unchanged by the round trip": `canonTerms ts` is the
 body a re-parse returns for `ts` (one-term Conjunction objects become bare terms, passed-through
-one-feature AVMs come back as fresh AVMs — see `canonVal`/`canonFeat` in Model.lean, tied to the
+one-feature AVMs come back as fresh AVMs — see `canonVal` in Model.lean, tied to the
 parser by the correspondence run); its `features(expand=True)` list is the same, for every body. -/
 theorem expandTop_roundtrip (ts : Terms) : expandTop (canonTerms ts) = expandTop ts :=
   expandTop_canon ts
@@ -197,15 +191,14 @@ theorem second_format_differs_counterexample :
     let t : Term := .avm none (.cons ['A'] (.conj (.cons (.avm none (.cons ['B'] x .nil)) .nil)) .nil)
     toksTerm (canonTerm t) ≠ toksTerm t := by
   simp [toksTerm, toksFeats, toksFeat, toksFeatsC, toksVal, toksTerms, toksAmp, canonTerm, canonFeats,
-    canonFeat, canonVal, docTok, pathToks]
+    canonVal, docTok, pathToks]
 
-/-- F43 (model level): the docstring of a passed-through one-feature AVM is not among the tokens
-that `format` writes. -/
-theorem hidden_docstring_counterexample :
+/-- regression (F43, repaired): the docstring of a one-feature AVM used as a feature value is
+written (the AVM is no longer folded into a dotted path). -/
+example :
     let x : Val := .term (.ident none ['x'])
     let t : Term := .avm none (.cons ['A'] (.term (.avm (some ['d']) (.cons ['B'] x .nil))) .nil)
-    Tok.doc ['d'] ∉ toksTerm t := by
-  simp [toksTerm, toksFeats, toksFeat, toksFeatsC, toksVal, toksTerms, toksAmp, canonTerm, canonFeats,
-    canonFeat, canonVal, docTok, pathToks]
+    Tok.doc ['d'] ∈ toksTerm t := by
+  simp [toksTerm, toksFeats, toksFeat, toksFeatsC, toksVal, toksTerms, toksAmp, docTok, pathToks]
 
 end Verif.C15
